@@ -122,6 +122,10 @@ class CompilerTheory(Theory):
     def equal(self, ex, e, op, a, b, st):
         if a.sort == 'Label' and b.sort == 'Label':
             return EQ(a.e, b.e)
+        if a.sort == 'Code' and b.sort == 'PyList' and not b.meta['items']:
+            return EQ(a.e, 'cnil')
+        if b.sort == 'Code' and a.sort == 'PyList' and not a.meta['items']:
+            return EQ(b.e, 'cnil')
         return None
 
     def apply_name(self, ex, e, name, args, st):
